@@ -134,6 +134,34 @@ def _edges_of(prog, b):
         yield e
 
 
+def _returns_param(prog, path):
+    """k if the local function `path` returns its k-th parameter unchanged on every path (e.g. the raw copy helpers return `total`)"""
+    memo = prog.__dict__.setdefault("_c07_retparam", {})
+    if path in memo:
+        return memo[path]
+    memo[path] = None
+    b = prog.by_id.get(path)
+    if b is None or b.kind not in ("Fn", "AssocFn"):
+        return None
+    from ..pat import unref
+    ks = set()
+    for _p, t in b.return_terms():
+        t = unref(t)
+        for _ in range(4):
+            # returned through another local function that itself returns one of its arguments
+            if t[0] == 'call' and t[1] in prog.by_id and t[1] != path:
+                k2 = _returns_param(prog, t[1])
+                if k2 and k2 <= len(t[2]):
+                    t = unref(t[2][k2 - 1])
+                    continue
+            break
+        if t[0] != 'param':
+            return None
+        ks.add(t[1])
+    memo[path] = ks.pop() if len(ks) == 1 else None
+    return memo[path]
+
+
 def contract_kinds(prog):
     """{function key: kinds of its own panic edges that are tabled as a caller precondition (category P)}"""
     out = {}
@@ -230,6 +258,55 @@ def auto_discharge(b, e):
     return _auto(b, e)
 
 
+_SWAP = {"Gt": "Lt", "Lt": "Gt", "Ge": "Le", "Le": "Ge", "Eq": "Eq", "Ne": "Ne"}
+
+
+def _canon_rel(op, x, y):
+    from ..bounds import norm as bnorm
+    x, y = bnorm(x), bnorm(y)
+    return (op, x, y) if repr(x) <= repr(y) else (_SWAP[op], y, x)
+
+
+def _assert_unreachable(b, e):
+    """the failing branch of an assert!/debug_assert! is unreachable: (1) one of the comparisons that lead to it contradicts the
+    other facts there (ordering closure; a local helper that returns its k-th argument is that argument); or (2) the function is
+    not callable from outside the crate, the failing comparison mentions only its parameters, and every call site refutes it with
+    its own arguments (a precondition that all callers establish, e.g. `total <= slice.len()` of the raw copy helpers)."""
+    from ..failsum import subst
+    from ..bounds import norm as bnorm
+    facts = [r for r in b.facts_at(e["pos"]) if r[0] == 'cmp']
+    rels = []
+    for r in facts:
+        cr = _canon_rel(r[1], r[2], r[3])
+        if cr not in rels:
+            rels.append(cr)
+    for cr in rels:
+        others = [r for r in facts if _canon_rel(r[1], r[2], r[3]) != cr] + [r for r in b.facts_at(e["pos"]) if r[0] != 'cmp']
+        if Bounds(others).refutes(*cr):
+            return f"assertion cannot fail: `{tstr(cr[1])[:50]} {cr[0]} {tstr(cr[2])[:50]}` contradicts the other facts on the way to the panic"
+    root = b.prog.by_id.get(b.root, b) if b.kind == "Closure" else b
+    f = b.prog.fns.get(root.id)
+    if b is not root or f is None or f.get("vis") == "pub":
+        return None
+
+    def only_params(t):
+        return not any(x[0] in ('var', 'unknown') for x in subterms(t))
+    cands = [cr for cr in rels if only_params(cr[1]) and only_params(cr[2]) and any(x[0] == 'param' for x in list(subterms(cr[1])) + list(subterms(cr[2])))]
+    if not cands:
+        return None
+    sites = [(cb, c) for cb in b.prog.bodies for c in cb.calls() if c.target == b.id or (c.target and strip_generics(c.target) == strip_generics(b.id))]
+    if not sites:
+        return None
+    eff = effects.Effects(b.prog)
+    for cb, c in sites:
+        args = [bnorm(eff.inline(a)) for a in c.args()]
+        B = Bounds(cb.facts_at(c.pos))
+        if not any(B.refutes(op, bnorm(eff.inline(subst(x, args))), bnorm(eff.inline(subst(y, args)))) for op, x, y in cands):
+            return None
+    return (f"assertion cannot fail: the function is crate-internal and each of its {len(sites)} call site(s) establishes "
+            f"`not ({tstr(cands[0][1])[:40]} {cands[0][0]} {tstr(cands[0][2])[:40]})` with its own arguments")
+
+
 def _F(b, e):
     return e["_facts"] if "_facts" in e else b.facts_at(e["pos"])
 
@@ -268,6 +345,8 @@ def _auto(b, e):
         if Bounds(facts).le(c, a):
             return f"`{tstr(deep_strip(c))[:60]}` <= `{tstr(deep_strip(a))[:60]}` by interval / ordering closure over the dominating facts"
         return None
+    if k == "diverge" and re.search(r"assert|panic_2021", e.get("sig", "") + e.get("mac", "")) and "_facts" not in e:
+        return _assert_unreachable(b, e)
     if k == "unwrap" and len(e["ops"]) >= 1 and "_facts" not in e:
         # unwrap()/expect() of one of the crate's own checked helpers whose every failing return is excluded at this point
         fs = getattr(b.prog, "_c07_failsum", None)
@@ -691,6 +770,7 @@ def run(ctx, progs):
         from .. import bounds as _bounds
         _fs = prog._c07_failsum
         _bounds.set_sum_hook(lambda path, _fs=_fs: (_fs.S.checked_sum(_fs._body(path).id) if _fs._body(path) is not None else None))
+        _bounds.set_ret_hook(lambda path, prog=prog: _returns_param(prog, path))
         n_bodies = n_edges = n_auto = n_tab = 0
         n_loops = 0
         for b in prog.bodies:
